@@ -109,7 +109,9 @@ class ProcessWorker(Worker):
         else:
             try:
                 self._ctrl_comms.parent_end.put('terminate')
-                self._ctrl_comms.parent_end.get()
+                # a stopped child, or one stuck inside C code, never answers: do not wait longer than the timeout
+                if self._ctrl_comms.parent_end.poll(timeout):
+                    self._ctrl_comms.parent_end.get()
             except (BrokenPipeError, queue.Empty):
                 pass
 
@@ -119,6 +121,10 @@ class ProcessWorker(Worker):
                 if force:
                     self._child.terminate()
                     self._child.join(timeout)
+                    if self._child.is_alive():
+                        # SIGTERM stays pending on a stopped process
+                        self._child.kill()
+                        self._child.join(timeout)
                     # try:
                     #     self._comms.child_end.put((False, None))
                     #     self._comms.child_end.close()
